@@ -197,6 +197,24 @@ pub fn run(cfg: &Cfg) -> Report {
                     let f = judge_3d_one(ctx, &c, &format!("{}-sheeted cover of corpus symbol {}", c.n / m.n, gen::EUCLIDEAN_CORPUS[k]), true);
                     if f != Found::Failed {
                         ctx.count("corpus_cover_symbols_found");
+                        // whether a cover is found and its sheet number must not depend on numbering / dualisation
+                        let mut vars = vec![("dual".to_string(), c.dual())];
+                        for r in 0..cfg.tier.pick(1, 3) {
+                            vars.push((format!("renumbering #{}", r), c.renumbered(&rng.perm1(c.n))));
+                        }
+                        for (name, cv) in vars {
+                            let f2 = judge_3d_one(ctx, &cv, &name, true);
+                            if f2 != Found::Failed && f2 != f {
+                                ctx.violation(
+                                    "result-depends-on-numbering-or-dualisation",
+                                    "delaney3d::pseudo_toroidal_cover",
+                                    json!({"symbol": c.to_text(), "variant": name, "variant_symbol": cv.to_text()}),
+                                    json!({"original": format!("{:?}", f), "variant": format!("{:?}", f2)}),
+                                    "whether a cover is found, and its sheet number, do not depend on the numbering of the input",
+                                );
+                                break;
+                            }
+                        }
                     }
                 }
             }
